@@ -69,6 +69,8 @@ def scenarios(tier, seed):
         dict(trial="uhf", wt="uhf", nelec=(2, 1), opts=dict(ad_mode="forward", orbital_rotation=False, do_sr=False), block=(3, 2, 1),
              nblocks=3, eql=(1, 1, 1)),
         dict(trial="uhf", wt="uhf", nelec=(2, 2), opts=dict(ad_mode="forward", do_sr=False), block=(3, 2, 1), nblocks=3, eql=(1, 1, 1)),
+        # open-shell trial on restricted (single-matrix) walkers: the down determinant is the first n_dn columns
+        dict(trial="uhf", wt="rhf", nelec=(2, 1), opts=dict(), block=(2, 2, 2), nblocks=2, eql=(1, 1, 1)),
     ]
     if tier == "thorough":
         base += [
